@@ -123,6 +123,9 @@ fn certs_for(c: &Cell) -> Option<(&'static str, &'static str)> {
 }
 
 /// the admission predicate of the property, as a function of the cell
+/// expected server names that are neither a DNS name nor an IP address (client cells, ctor 10..)
+pub const ODD_NAMES: [&str; 5] = ["*", "", "*.com", "test.com:802", "test com"];
+
 pub fn ref_tls(c: &Cell) -> Option<Expectation> {
     certs_for(c)?;
     if !c.rodbus_is_server && c.authz {
@@ -131,6 +134,8 @@ pub fn ref_tls(c: &Cell) -> Option<Expectation> {
     }
     let version_ok = !c.min13 || c.peer != PeerVersions::Tls12Only;
     let cert_ok = match c.cert {
+        // an expected name that cannot be a name matches no certificate
+        _ if c.ctor >= 10 && c.ctor < 20 => false,
         CertKind::Valid | CertKind::OtherRole | CertKind::ViewerThenOperatorInChain | CertKind::OddRole => true,
         CertKind::RoleLess | CertKind::RoleLessThenOperatorInChain => !(c.rodbus_is_server && c.authz),
         // no expected name configured: any server that chains to the authority is valid
@@ -497,9 +502,14 @@ async fn run_client_cell(c: &Cell) -> Result<Observed, String> {
     } else if c.self_signed {
         TlsClientConfig::self_signed(&cert_path(trust), &cert_path(local), &key_path(local), None, min_version(c))
     } else {
-        TlsClientConfig::full_pki(if c.ctor == 2 { None } else if c.ctor == 3 { Some("127.0.0.1".to_string()) } else { Some("test.com".to_string()) }, &cert_path(trust), &cert_path(local), &key_path(local), None, min_version(c))
-    }
-    .map_err(|e| format!("TlsClientConfig: {e}"))?;
+        TlsClientConfig::full_pki(if c.ctor == 2 { None } else if c.ctor == 3 { Some("127.0.0.1".to_string()) } else if c.ctor >= 10 { Some(ODD_NAMES[(c.ctor - 10) as usize].to_string()) } else { Some("test.com".to_string()) }, &cert_path(trust), &cert_path(local), &key_path(local), None, min_version(c))
+    };
+    let cfg = match cfg {
+        Ok(c) => c,
+        // an expected name that is no name at all may be refused right away
+        Err(e) if c.ctor >= 10 => return Ok(Observed { admitted: false, version: "none".into(), roles_seen: vec![], handler_calls: 0, detail: format!("configuration refused: {e}") }),
+        Err(e) => return Err(format!("TlsClientConfig: {e}")),
+    };
     let (listener, addr) = listen("127.0.0.1").await;
     let (tx, mut states) = tokio::sync::mpsc::unbounded_channel();
     let retry = doubling_retry_strategy(Duration::from_secs(30), Duration::from_secs(30));
@@ -718,7 +728,7 @@ pub fn check_c09(tier: &str) -> i32 {
         "C09",
         tier,
         "exploration",
-        "the whole configuration grid {min version 1.2, 1.3} x {authority, self-signed} x {with, without authorization} x {rodbus is client, server} x peer offers {TLS1.2 only, TLS1.3 only, both} x peer certificate {valid, wrong authority, wrong name, expired, not yet valid, role-less, differently roled} = 336 cells over real loopback sockets: the rodbus endpoint is built with the unmodified public API, the peer is an independent rustls endpoint with explicit protocol versions and a permissive verifier, so the verdict is rodbus' alone; admission is judged by an answered Modbus request, the negotiated version by the peer, the role by an authorization handler; cells that are not meaningful are listed as n/a; per server configuration two more peers send Modbus bytes instead of / in the middle of the handshake; outside the grid: a certificate issued by the pinned self-signed certificate, certificates with the pinned certificate's subject / subject and key but other bytes, client chains in which an unrelated certificate carrying another role follows the client certificate, and client configurations built with the legacy constructor, without an expected server name and with an IP literal as the expected name; a client certificate whose role has a leading blank and a capital letter; certificates whose validity begins or ends within two minutes of now (minted at run time); one resuming rustls client against two servers of the same process that trust different authorities / pin different certificates. distinct = distinct (cell, observation) pairs",
+        "the whole configuration grid {min version 1.2, 1.3} x {authority, self-signed} x {with, without authorization} x {rodbus is client, server} x peer offers {TLS1.2 only, TLS1.3 only, both} x peer certificate {valid, wrong authority, wrong name, expired, not yet valid, role-less, differently roled} = 336 cells over real loopback sockets: the rodbus endpoint is built with the unmodified public API, the peer is an independent rustls endpoint with explicit protocol versions and a permissive verifier, so the verdict is rodbus' alone; admission is judged by an answered Modbus request, the negotiated version by the peer, the role by an authorization handler; cells that are not meaningful are listed as n/a; per server configuration two more peers send Modbus bytes instead of / in the middle of the handshake; outside the grid: a certificate issued by the pinned self-signed certificate, certificates with the pinned certificate's subject / subject and key but other bytes, client chains in which an unrelated certificate carrying another role follows the client certificate, and client configurations built with the legacy constructor, without an expected server name, with an IP literal as the expected name and with five strings that are neither (\"*\", \"\", \"*.com\", \"test.com:802\", \"test com\"); a client certificate whose role has a leading blank and a capital letter; certificates whose validity begins or ends within two minutes of now (minted at run time); one resuming rustls client against two servers of the same process that trust different authorities / pin different certificates. distinct = distinct (cell, observation) pairs",
     );
     let thorough = rep.thorough();
     let mut cells = all_cells(false);
@@ -752,6 +762,12 @@ pub fn check_c09(tier: &str) -> i32 {
                     }
                 }
             }
+        }
+    }
+    // expected server names that are no names: the configuration is refused or nobody is admitted
+    for k in 0..ODD_NAMES.len() as u8 {
+        for cert in [CertKind::Valid, CertKind::WrongName] {
+            cells.push(Cell { min13: false, self_signed: false, authz: false, rodbus_is_server: false, peer: PeerVersions::Both, cert, spawn: false, ctor: 10 + k });
         }
     }
     rep.bounds = json!({"cells": cells.len(), "constructors": if thorough { "create_* and spawn_*" } else { "create_*" }});
